@@ -657,6 +657,24 @@ def run(ctx):
         Box = _types.new_class(f"PBox{next(_serial)}", (env.PaneBase, t.Generic[TA]), {}, lambda ns: ns.update({'__annotations__': {'x': TA, 'n': int}, 'n': 0, '__module__': __name__}))
         Two = _types.new_class(f"PTwo{next(_serial)}", (env.PaneBase, t.Generic[TA, TB]), {}, lambda ns: ns.update({'__annotations__': {'a': TA, 'b': TB}, '__module__': __name__}))
         arg, good, good2, bad = rng.choice(((int, 5, 7, 's'), (str, 's', 'u', 5), (t.List[int], [1], [2, 3], ['a'])))
+        # two parametrisations whose arguments PRINT alike (Union[None, E] / Union[E, None] inside a PEP 585 generic): each substitutes
+        # its own argument, whichever was subscripted first
+        import enum as _enum
+        E = _enum.Enum(f"Maybe{next(_serial)}", {'NOTHING': None, 'ONE': 1})
+        wrapf = rng.choice((lambda u: list[u], lambda u: dict[str, u], lambda u: tuple[u, int]))
+        twins = [(wrapf(t.Union[None, E]), None), (wrapf(t.Union[E, None]), E.NOTHING)]
+        if rng.random() < 0.5:
+            twins.reverse()
+        for targ, want in twins:
+            data = [None] if t.get_origin(targ) is list else ({'k': None} if t.get_origin(targ) is dict else [None, 1])
+            o = observe(lambda: Box[targ].from_data({'x': data}).x)
+            got = (o.val[0] if isinstance(o.val, (list, tuple)) else o.val['k']) if o.kind == 'value' else None
+            ctx.count('print_alike_argument_checks')
+            if o.kind != 'value' or got is not want:
+                ctx.violation('type-variable-substitution', 'parametrised', i, {'argument': short(targ, 100), 'arguments_in_order_subscripted': [short(a, 80) for a, _ in twins],
+                                                                              'data': short(data), 'read_as': o.brief()[:120], 'expected_element': short(want)},
+                              mech='print-alike-arguments-share-a-parametrisation')
+                return
         inst = Box[arg](good)
         ok_r = observe(inst.__replace__, x=good2)
         bad_r = observe(inst.__replace__, x=bad)
@@ -830,11 +848,19 @@ def run(ctx):
             V = TA if same_var else TB
             Named = type(f"MNamed{n}", (env.PaneBase,), {'__annotations__': {'name': str}, '__module__': __name__})
             arg, good, bad = rng.choice(((str, 's', 5), (int, 5, 's'), (t.List[int], [1], ['a'])))
-            kind = rng.choice(('bound-sibling-first', 'bound-sibling-second', 'plain-first', 'two-forwarded', 'none-argument'))
+            kind = rng.choice(('bound-sibling-first', 'bound-sibling-second', 'plain-first', 'two-forwarded', 'none-argument', 'redeclared-by-sibling'))
             if kind in ('bound-sibling-first', 'bound-sibling-second'):
                 bases = (Stamped[int], Box[V]) if kind == 'bound-sibling-first' else (Box[V], Stamped[int])
                 mk = lambda: _types.new_class(f"MSB{n}", bases + (t.Generic[V],), {}, lambda ns: ns.update({'__annotations__': {}, '__module__': __name__}))[arg]
                 rows = [({'stamp': 1, 'item': good}, True), ({'stamp': 1, 'item': bad}, False), ({'stamp': 'x', 'item': good}, False)]
+            elif kind == 'redeclared-by-sibling':
+                # Base[T]{item: T}; Counted(Base[T]); Listed(Base[T]) REDECLARES item: List[T]; class C(Counted[int], Listed[V]): the int bound
+                # by the Counted branch is no business of the field Listed redeclared
+                Base = gcls('MBase', 'item', TA)
+                Counted = _types.new_class(f"MCounted{n}", (Base[TA], t.Generic[TA]), {}, lambda ns: ns.update({'__annotations__': {'count': int}, 'count': 0, '__module__': __name__}))
+                Listed = _types.new_class(f"MListed{n}", (Base[TA], t.Generic[TA]), {}, lambda ns: ns.update({'__annotations__': {'item': t.List[TA]}, '__module__': __name__}))
+                mk = lambda: _types.new_class(f"MRC{n}", (Counted[int], Listed[V], t.Generic[V]), {}, lambda ns: ns.update({'__annotations__': {}, '__module__': __name__}))[arg]
+                rows = [({'item': [good]}, True), ({'item': [bad]}, False), ({'item': good}, False)]
             elif kind == 'plain-first':
                 order = rng.choice(((Named, Box[V]), (Box[V], Named)))
                 mk = lambda: type(f"MNB{n}", order, {'__annotations__': {}, '__module__': __name__})[arg]
